@@ -116,6 +116,13 @@ impl PartialOrd for Duration {
     }
 }
 
+impl Instant {
+    // std: "Returns Some(t) where t is the time self + duration if t can be represented as Instant, None otherwise."
+    #[verifier::external_body]
+    pub fn checked_add(&self, duration: Duration) -> (r: Option<Instant>)
+        ensures r == (if self.nanos + duration.nanos <= INSTANT_MAX_NANOS() { Some(Instant { nanos: (self.nanos + duration.nanos) as u128 }) } else { None::<Instant> })
+    { unimplemented!() }
+}
 // Instant + Duration : std panics on overflow ("overflow when adding duration to instant")
 impl vstd::std_specs::ops::AddSpecImpl<Duration> for Instant {
     open spec fn obeys_add_spec() -> bool { true }
